@@ -4,7 +4,7 @@ reducer/runner anchors, union members, isinstance dispatch chains, command-list 
 from __future__ import annotations
 
 import ast
-from typing import Iterator
+from typing import Iterable, Iterator
 
 from ..astx import call_name, dotted, enclosing_stmt, kwarg, last
 from ..cfg import CFG, Node, exprs_in_node
@@ -165,6 +165,33 @@ CL_PROTECTED = {
 }
 
 
+# The private module-level helpers of retry_policy.py that the rules know by name (C06/C07 follow them explicitly).
+RP = "workflows.retry_policy"
+RP_PROTECTED = {"_exp_term", "_to_seconds", "_compile_pattern"}
+
+
+# internal_state.py: (de)serialization of the broker state; the rules bind these by name.
+ST_PROTECTED = {"_import_event_type", "_deepcopy", "deepcopy"}
+
+
 def engine_view(repo: Repo) -> int:
-    """Switch this Repo object to the helper-inlined view of the control-loop module."""
-    return repo.use_inlined(CL, CL_PROTECTED)
+    """Switch this Repo object to the helper-inlined view of the control-loop, retry-policy and broker-state modules."""
+    return repo.use_inlined(CL, CL_PROTECTED) + repo.use_inlined(RP, RP_PROTECTED) + repo.use_inlined(STATE, ST_PROTECTED)
+
+
+def inlined_view(repo: Repo, modname: str, *checker_files: str, extra: Iterable[str] = ()) -> int:
+    """Helper-inlined view of `modname` for a property module: every private function of the module that the checker's
+    own source mentions by name is an anchor and stays; any other private helper (in particular one that a refactoring
+    introduces) is inlined into its callers before the rules look at them."""
+    import re as _re
+    from pathlib import Path as _P
+
+    m = repo.module(modname)
+    text = "\n".join(_P(f).read_text(encoding="utf-8") for f in checker_files)
+    words = set(_re.findall(r"[A-Za-z_][A-Za-z0-9_]*", text))
+    protected = set(extra)
+    for qn in m.functions:
+        name = qn.split(".")[-1]
+        if name in words:
+            protected.add(name)
+    return repo.use_inlined(modname, protected)
